@@ -817,3 +817,14 @@ func VNthTok(t Token) bool {
 //@   props C06 C07
 //@   nopanic
 //@   inline
+
+// functional notation: not a function -> zero values; the name is ASCII lower-cased
+// (function names are case-insensitive, C08); arguments only for a well-formed list
+//@ func ParseFunction
+//@   props C07 C08
+//@   modifies nothing
+//@   ensures !typeIs(functionToken_, FunctionBlock) ==> result0 == "" && len(result1) == 0
+//@   ensures result0 != "" ==> typeIs(functionToken_, FunctionBlock) && result0 == utils.AsciiLower(functionToken_.(FunctionBlock).Name)
+//@   ensures result0 == "" && typeIs(functionToken_, FunctionBlock) && functionToken_.(FunctionBlock).Name != "" ==> len(result1) == 0
+//@   loop 1 invariant fresh(arguments)
+//@   unclaimed call-RemoveWhitespace@1-pre1 "token lists produced by the tokenizer contain no nil token: data invariant not tracked through nested blocks"
